@@ -69,6 +69,8 @@ pub async fn run(
                     }
                 };
 
+                #[cfg(deltio_verif)]
+                crate::verif::label(|| format!("push:{}", name));
                 tokio::spawn(pull_and_dispatch_messages(
                     subscription,
                     push_config,
@@ -109,6 +111,8 @@ async fn pull_and_dispatch_messages(
                 client.clone(),
             )
             .shared();
+            #[cfg(deltio_verif)]
+            crate::verif::label(|| format!("dispatch:{}", subscription.name));
             join_set.spawn(dispatch_fut.clone());
 
             // Wait a bit to increase the likelihood of delivering
